@@ -235,6 +235,12 @@ func c02One(r *fw.Rec, o dmOpts, class string) bool {
 	if r.Rng.Intn(4) == 0 {
 		k := 1 + r.Rng.Intn(4)
 		w, h := bm.GetWidth()*k+r.Rng.Intn(9), bm.GetHeight()*k+r.Rng.Intn(9)
+		switch r.Rng.Intn(6) {
+		case 0: // narrower than the symbol, but tall enough: the bare symbol must come back, readable
+			w = r.Rng.Intn(bm.GetWidth())
+		case 1: // lower than the symbol, but wide enough
+			h = r.Rng.Intn(bm.GetHeight())
+		}
 		img, ierr := datamatrix.NewDataMatrixWriter().Encode(o.text, gozxing.BarcodeFormat_DATA_MATRIX, w, h, o.hints())
 		if ierr != nil {
 			r.Violation("roundtrip", "dm.writer:error-at-larger-size", fmt.Sprintf("writer failed at %dx%d after succeeding at 0x0: %v", w, h, ierr), info)
